@@ -16,9 +16,10 @@ open N0 N0.Py N0.Val
 
 /-! ## tokens -/
 
-/-- the value a condition compares with: `expected_value or expected_value_bool` -/
+/-- the value a condition compares with: a bool for `true()`/`false()`, otherwise the text
+(the empty text included) -/
 inductive CondVal
-  | str (s : Str)      -- non-empty text
+  | str (s : Str)
   | bool (b : Bool)
   deriving DecidableEq, Repr, Inhabited
 
@@ -78,8 +79,8 @@ def parseCond (s : Str) : PyM Idx :=
         else if (startsWith v ['"'] && endsWith v ['"']) || (startsWith v ['\''] && endsWith v ['\'']) then
           let inner := (v.drop 1).dropLast
           if hasPercent inner then .error .Unsupported
-          else if inner.isEmpty then .ok (.cond k d (.bool false)) else .ok (.cond k d (.str inner))
-        else if v.isEmpty then .ok (.cond k d (.bool false)) else .ok (.cond k d (.str v))
+          else .ok (.cond k d (.str inner))
+        else .ok (.cond k d (.str v))
   else .ok (.str s)
 
 /-- `split_name_index(node_name)` -/
@@ -215,7 +216,7 @@ def condValStr : CondVal → Str
   | .bool true => "True".toList
   | .bool false => "False".toList
 
-/-- equality `parent == expected` of the `text()` condition (Python `==`) -/
+/-- Python `value == expected` for an expected text or bool (no conversion) -/
 def pyEqCond (v : Val) (c : CondVal) : Bool :=
   match v, c with
   | .str s, .str t => s = t
@@ -224,15 +225,32 @@ def pyEqCond (v : Val) (c : CondVal) : Bool :=
   | .flt r, .bool c => if c then r = "1.0".toList else (r = "0.0".toList || r = "-0.0".toList)
   | _, _ => false
 
-/-- `expected in parent` of the `text()~~` condition -/
-def pyInCond (c : CondVal) (v : Val) : PyM Bool :=
+/-- scope guard of the `text()` condition: `int(expected)` for an `int`/`bool` node is modelled for
+ASCII text only (Python also accepts other Unicode digits), `float(expected)` for a float node is
+not modelled -/
+def textGuard (pv : Val) (v : CondVal) : Bool :=
+  match pv, v with
+  | .int _, .str t | .bool _, .str t => t.any (fun c => c.toNat ≥ 128)
+  | .flt _, .str _ => true
+  | _, _ => false
+
+/-- `parent == expected` of the `text()` condition: an expected text that parses as an int is
+compared as a number with an `int` (or `bool`) node, otherwise it is not equal to it; float nodes
+with an expected text are outside the model (guarded in `findD`) -/
+def textEqCond (v : Val) (c : CondVal) : Bool :=
   match v, c with
-  | .str s, .str t => .ok (isInfix t s)
-  | .str _, .bool _ => .error .TypeError
-  | .list _ xs, c => .ok (xs.any (fun x => pyEqCond x c))
-  | .dict _ kvs, .str t => .ok (kvHas t kvs)
-  | .dict _ _, .bool _ => .ok false
-  | _, _ => .error .TypeError
+  | .int i, .str t => pyInt t == some i
+  | .bool b, .str t => pyInt t == some (if b then 1 else 0)
+  | v, c => pyEqCond v c
+
+/-- `expected in parent` of the `text()~~` condition; a `TypeError` (the node is neither text nor a
+container, or a bool is looked for in a text) counts as "does not contain" -/
+def pyInCond (c : CondVal) (v : Val) : Bool :=
+  match v, c with
+  | .str s, .str t => isInfix t s
+  | .list _ xs, c => xs.any (fun x => pyEqCond x c)
+  | .dict _ kvs, .str t => kvHas t kvs
+  | _, _ => false
 
 /-- result tuple of `_find` -/
 structure Res where
@@ -388,9 +406,7 @@ def findD (fuel : Nat) (root : Val) (sp : Pos) (ps entry : Bool) (toks : List St
       | .dict _ kvs =>
         match lookup name kvs with
         | Option.none =>
-          -- NOT FOUND (special case: missing key followed by [text()=='']/..)
-          -- (the special case `[text()=='']/..` tests `node_index[2] == ""`, which never holds:
-          --  an empty expected value is stored as `False`)
+          -- NOT FOUND
           .ok (root, { parent := par, nameIdx := Option.none, value := Val.none, found := found, notFound := some (tok :: rest) })
         | some cv =>
           if rest.isEmpty && idx = .none then
@@ -476,24 +492,11 @@ def findD (fuel : Nat) (root : Val) (sp : Pos) (ps entry : Bool) (toks : List St
     | .cond k op v =>
       if k = sTextFn then
         -- text() condition on the parent itself
-        let numeric : Option (PyM Unit) := match pv with
-          | .int _ | .bool _ =>
-            some (match v with
-              | .str t => if (pyInt t).isSome then .error .TypeError else .error .ValueError
-              | .bool _ => .error .TypeError)
-          | .flt _ =>
-            some (match v with
-              | .str _ => .error .Unsupported
-              | .bool _ => .error .TypeError)
-          | _ => Option.none
-        match numeric with
-        | some (.error e) => .error e
-        | some (.ok _) => .error .Unsupported
-        | Option.none =>
+        if textGuard pv v then .error .Unsupported else
           let op1 := op.drop 1
           let cmp : PyM Bool :=
-            if op1 = ['='] then .ok (pyEqCond pv v)
-            else if op1 = ['~'] then pyInCond v pv
+            if op1 = ['='] then .ok (textEqCond pv v)
+            else if op1 = ['~'] then .ok (pyInCond v pv)
             else .error .SyntaxError
           match cmp with
           | .error e => .error e
